@@ -17,6 +17,7 @@ import PandoraModel.Model.Wiring
 import PandoraModel.Generated.Threading
 import PandoraModel.Generated.Wiring
 import PandoraModel.Generated.Transitions
+import PandoraModel.Generated.Globals
 
 namespace Pandora.C18
 open Pandora.Threading
@@ -250,5 +251,25 @@ theorem shared_schema_keys_uniform :
 example : runOrder (fun i (x : Nat) => x + i) [0, 1, 2] (fun _ => 10) 2 = 12 := by decide
 example : runOrder (fun i (x : Nat) => x + i) [2, 0, 1] (fun _ => 10) = runOrder (fun i (x : Nat) => x + i) [0, 1, 2] (fun _ => 10) :=
   order_independent _ _ _ (by decide) _
+
+
+/-- **No state in the process besides the plugin registries.** The only module-level or class-level mutable
+    containers that a function of the package writes are the eleven `*_methods_avail` registries filled by
+    `register_subclass` at import time, and no function is memoised: nothing a run computes can be remembered
+    by the process and reach a later run (what `rerun_agree` needs of the code, beyond the machine's attributes). -/
+theorem process_state_is_the_plugin_registries :
+    Generated.Globals.processStateWrites =
+      [("pandora/aggregation/aggregation.py", "AbstractAggregation.aggreg_methods_avail", "store"),
+       ("pandora/cost_volume_confidence/cost_volume_confidence.py", "AbstractCostVolumeConfidence.confidence_methods_avail", "store"),
+       ("pandora/disparity/disparity.py", "AbstractDisparity.disparity_methods_avail", "store"),
+       ("pandora/filter/filter.py", "AbstractFilter.filter_methods_avail", "store"),
+       ("pandora/matching_cost/matching_cost.py", "AbstractMatchingCost.matching_cost_methods_avail", "store"),
+       ("pandora/multiscale/multiscale.py", "AbstractMultiscale.multiscale_methods_avail", "store"),
+       ("pandora/optimization/optimization.py", "AbstractOptimization.optimization_methods_avail", "store"),
+       ("pandora/refinement/refinement.py", "AbstractRefinement.subpixel_methods_avail", "store"),
+       ("pandora/semantic_segmentation/semantic_segmentation.py", "AbstractSemanticSegmentation.segmentation_methods_avail", "store"),
+       ("pandora/validation/interpolated_disparity.py", "AbstractInterpolation.interpolation_methods_avail", "store"),
+       ("pandora/validation/validation.py", "AbstractValidation.validation_methods_avail", "store")]
+    ∧ Generated.Globals.memoised = [] := by decide
 
 end Pandora.C18
